@@ -376,6 +376,16 @@ function makeRProxy(R, st, ctx) {
         }
         return wrapped[k]
       }
+      if (k === 'wl') {
+        // worklet directives leave no trace in the node tree: keep one for the serialiser
+        return (el, name, value) => {
+          if (el) {
+            if (!el._$verifWorklet) el._$verifWorklet = {}
+            el._$verifWorklet[name] = value
+          }
+          return t.wl(el, name, value)
+        }
+      }
       const v = t[k]
       return typeof v === 'function' ? v.bind(t) : v
     },
@@ -599,6 +609,7 @@ function ser(n) {
   const ds = n.dataset
   if (ds && Object.keys(ds).length) o.dataset = ds
   if (n._$marks && Object.keys(n._$marks).length) o.marks = n._$marks
+  if (n._$verifWorklet) o.worklet = n._$verifWorklet
   const ls = serListeners(n)
   if (ls) o.listeners = ls
   if (n._$slotName !== null && n._$slotName !== undefined) {
